@@ -135,8 +135,14 @@ class Interp(HeapMixin, OpsMixin, StmtMixin, CallMixin):
                 return NONE
             return self.fresh(ty[1], name)
         if k == "union":
-            i = run.choose([(str(t), None) for t in ty[1:]], f"type({name})")
-            return self.fresh(ty[1 + i], name)
+            i = run.choose([(str(t), None) for t in ty[1:]], f"type({name})", persist=True)
+            v = self.fresh(ty[1 + i], name)
+            if isinstance(v, VAny):
+                # the opaque alternative of a union is not an instance of the other alternatives' classes
+                for t in ty[1:]:
+                    if t[0] == "obj":
+                        run.assume(z3.Not(z3.Function(f"isinstance_{t[1]}", AnySort, z3.BoolSort())(v.t)), persist=True)
+            return v
         if k == "obj":
             return self.sym_ref(name, "obj", ty[1], lambda: ObjRec(ty[1], {}, sym=name))
         if k == "list":
